@@ -364,11 +364,18 @@ func Prelude() string {
 (declare-fun Str_at (Str Int) Int)
 (declare-fun Str_sub (Str Int Int) Str)
 (assert (forall ((a Str) (i Int) (j Int)) (! (=> (and (<= 0 i) (<= i j) (<= j (Str_len a))) (= (Str_len (Str_sub a i j)) (- j i))) :pattern ((Str_sub a i j)))))
+(assert (forall ((a Str) (b Str) (i Int) (j Int)) (! (=> (and (= i 0) (= j (Str_len a))) (= (Str_sub (Str_cat a b) i j) a)) :pattern ((Str_sub (Str_cat a b) i j)))))
+(assert (forall ((a Str) (b Str) (i Int) (j Int)) (! (=> (and (= i (Str_len a)) (= j (+ (Str_len a) (Str_len b)))) (= (Str_sub (Str_cat a b) i j) b)) :pattern ((Str_sub (Str_cat a b) i j)))))
+(assert (forall ((a Str) (b Str) (c Str)) (! (=> (= (Str_cat a b) (Str_cat a c)) (= b c)) :pattern ((Str_cat a b) (Str_cat a c)))))
+(assert (forall ((a Str) (b Str) (i Int)) (! (=> (and (<= 0 i) (< i (Str_len a))) (= (Str_at (Str_cat a b) i) (Str_at a i))) :pattern ((Str_at (Str_cat a b) i)))))
+(assert (forall ((a Str) (b Str) (i Int)) (! (=> (and (<= (Str_len a) i) (< i (+ (Str_len a) (Str_len b)))) (= (Str_at (Str_cat a b) i) (Str_at b (- i (Str_len a))))) :pattern ((Str_at (Str_cat a b) i)))))
 (declare-fun Str_lt (Str Str) Bool)
 (declare-fun itoa (Int) Str)
 (declare-fun atoi (Str) Int)
 (declare-fun atoi_ok (Str) Bool)
-(assert (forall ((n Int)) (! (and (atoi_ok (itoa n)) (= (atoi (itoa n)) n)) :pattern ((itoa n)))))
+(assert (forall ((n Int)) (! (and (atoi_ok (itoa n)) (= (atoi (itoa n)) n) (>= (Str_len (itoa n)) 1)) :pattern ((itoa n)))))
+(declare-fun Str_leadint (Str) Int)
+(assert (forall ((n Int) (t Str)) (! (=> (or (= (Str_len t) 0) (< (Str_at t 0) 48) (> (Str_at t 0) 57)) (= (Str_leadint (Str_cat (itoa n) t)) n)) :pattern ((Str_cat (itoa n) t)))))
 (define-fun trunc ((x Real)) Int (ite (>= x 0.0) (to_int x) (- (to_int (- x)))))
 `
 }
